@@ -518,6 +518,7 @@ def tsss(x, y):
     norm_y = np.sqrt(norm_y)
     magnitude_difference = np.abs(norm_x - norm_y)
     d_cos /= norm_x * norm_y
+    d_cos = min(max(d_cos, -1.0), 1.0)
     theta = np.arccos(d_cos) + np.radians(10)  # Add 10 degrees as an "epsilon" to
     # avoid problems
     sector = ((np.sqrt(d_euc_squared) + magnitude_difference) ** 2) * theta
